@@ -66,6 +66,7 @@ def bigify(c):
 @st.composite
 def cases(draw):
     c = draw(_cases())
+    c['shared_interpreter'] = draw(st.booleans())
     return bigify(c) if draw(st.integers(0, 6)) == 0 else c
 
 
@@ -150,6 +151,9 @@ def instantiated_pair(c):
     return P.Implies(ante, gens.build_repo(c['b'])), minor
 
 
+_SHARED_BASIC = None
+
+
 def call_rule(c):
     """Returns ('ok', conclusion_pattern) or ('raise', type)."""
     from proof_generation.basic_interpreter import BasicInterpreter
@@ -160,6 +164,12 @@ def call_rule(c):
     import proof_generation.pattern as P
 
     level, rule = c['level'], c['rule']
+    # history: half of the basic-level calls go through one long-lived interpreter object (per process), so that state an
+    # interpreter keeps between calls - caches, memo tables keyed by object identity - meets many different premises
+    global _SHARED_BASIC
+    if _SHARED_BASIC is None:
+        _SHARED_BASIC = BasicInterpreter(ExecutionPhase.Proof)
+    basic = (lambda: _SHARED_BASIC) if c.get('shared_interpreter') else (lambda: BasicInterpreter(ExecutionPhase.Proof))
 
     def thunk(pat):
         return ProofThunk(lambda interp: Proved(pat), pat)
@@ -171,7 +181,7 @@ def call_rule(c):
             else:
                 left = gens.build_repo(c['left']); right = gens.build_repo(c['right'])
             if level == 'basic':
-                return ('ok', BasicInterpreter(ExecutionPhase.Proof).modus_ponens(Proved(left), Proved(right)).conclusion)
+                return ('ok', basic().modus_ponens(Proved(left), Proved(right)).conclusion)
             if level == 'stateful':
                 it = StatefulInterpreter(ExecutionPhase.Proof)
                 pl, pr = Proved(left), Proved(right)
@@ -183,9 +193,20 @@ def call_rule(c):
             t = ProofExp().modus_ponens(thunk(left), thunk(right))
             return ('ok', t(BasicInterpreter(ExecutionPhase.Proof)).conclusion, t.conc)
         if rule == 'gen':
+            if level == 'basic' and c.get('shared_interpreter'):
+                # warm-up on the same interpreter: the same premise with the generalised variable renamed away (applicable), a few
+                # times, dropped again - objects of the real premise are then likely to reuse the addresses of the dropped ones
+                xv = c['x']
+                for _ in range(3):
+                    twin = gens.build_repo(gens.rename_var_ids(c['prem'], lambda i: 77 if i == xv else i))
+                    try:
+                        basic().exists_generalization(Proved(twin), P.EVar(xv))
+                    except Exception:  # noqa: BLE001 - the warm-up premise need not be an implication
+                        pass
+                    del twin
             prem = gens.build_repo(c['prem']); var = P.EVar(c['x'])
             if level == 'basic':
-                return ('ok', BasicInterpreter(ExecutionPhase.Proof).exists_generalization(Proved(prem), var).conclusion)
+                return ('ok', basic().exists_generalization(Proved(prem), var).conclusion)
             if level == 'stateful':
                 it = StatefulInterpreter(ExecutionPhase.Proof)
                 pp = Proved(prem)
@@ -199,7 +220,7 @@ def call_rule(c):
         conc = gens.build_repo(c['conc'])
         delta = {k: gens.build_repo(v) for k, v in c['delta']}
         if level == 'basic':
-            return ('ok', BasicInterpreter(ExecutionPhase.Proof).instantiate(Proved(conc), delta).conclusion)
+            return ('ok', basic().instantiate(Proved(conc), delta).conclusion)
         if level == 'stateful':
             it = StatefulInterpreter(ExecutionPhase.Proof)
             pp = Proved(conc)
